@@ -94,6 +94,12 @@ def modal_helpers():
 
 @functools.lru_cache(maxsize=None)
 def schema(logic, rc) -> Schema:
+    # in a rule body an operand stands for ANY sentence, a negation included: negative() of it cannot be decided from the token
+    old = R.NEGATIVE_OF_OPAQUE; R.NEGATIVE_OF_OPAQUE = 'outside'
+    try: return _schema(logic, rc)
+    finally: R.NEGATIVE_OF_OPAQUE = old
+
+def _schema(logic, rc) -> Schema:
     kind = classify(rc)
     sc = Schema(logic, rc, kind)
     inner = inner_sentence(rc, kind)
